@@ -15,6 +15,7 @@ from .. import pollute
 
 BEFORE_CASE = pollute.wreck        # state-leak adversary: see vmon/pollute.py
 
+PYTHON_O_STRIDE = {"quick": 4, "thorough": 2}      # every n-th case is repeated in an interpreter started with -O
 RULE = ("family x graph x parameters x formula class: every simple graph with <= 4 vertices (cnfgen and networkx objects) and "
         "seeded 5/6-vertex graphs; Tseitin with every charge vector (also short/long/non-boolean), k-colouring k in 0..4 x "
         "functional, even colouring, dominating set d in 1..n+1 x alternative, tiling, isomorphism on all pairs of graphs "
